@@ -46,6 +46,7 @@ SPECIAL = [
     'O=C(O)/C=C/C(=O)O', 'O=C(O)/C=C\\C(=O)O', 'ClC1=C(Cl)C1', 'C[C@H]1O[C@@H]1C', 'N1[C@@H](C)[C@H]1C',
     '[Na+].[O-]c1ccccc1', '[K+].[K+].[O-]C(=O)C(=O)[O-]', 'CC[N+](CC)(CC)CC.[O-]Cl(=O)(=O)=O', '[Li+].[AlH4-]', '[Na+].[BH4-]',
     '[H][H]', '[H+]', '[H-]', '[He]', '[Xe]', 'F[Xe]F', '[U+6]', 'O=[U+2]=O', '[Cl-].[Cl-].[Zn+2]',
+    'C1CC2(CC2)C12CC2', 'C1CC2(CC2)C2(CC2)C12CC2', 'C1CC2(CCC2)C12CC2', 'C1CCC2(CC2)C12CCC2', 'C1CC2(CC2)CC12CC2',
     # unbonded hydrogens in mixtures, main-group hydrides
     '[H+].[Cl-]', '[Na+].[H-]', 'C[NH3+].[H-]', '[H+].[H+].[O-]S([O-])(=O)=O', '[SiH4]', '[GeH4]',
 ]
